@@ -156,6 +156,14 @@ def run(ctx):
              "a drained (parked-then-executed) transaction sees `%s` as its Bitcoin transaction id, not the one stored with it" % show(opr)[:100],
              sample={"rule": "WIRE", "sink": "drain -> op_return_tx_id", "origin": show(opr)[:100]})
     ER.clause_park_rows_together(R, F)
+    # the tables the block context is read from (block hashes for BLOCKHASH, the parked transaction and its stored txid)
+    # follow the chain: a reorg / clear_caches / commit visits each of them, so a drained transaction never sees a txid
+    # written in an orphaned block
+    import tablerules as T
+    ctx_tables = T.fields_touched(F, ["get_pending_tx_op_return_tx_id", "get_pending_tx", "get_block_hash"])
+    R.floor("tables_behind_block_context", len(ctx_tables), 3)
+    for dm in ("reorg", "clear_caches", "commit_changes"):
+        T.clause_tables(R, F, dm, only_fields=ctx_tables)
     # controller loaders use the indexer address as sender
     for ln in ("load_brc20_mint_tx", "load_brc20_burn_tx", "load_brc20_deploy_tx"):
         lf = [f for f in F.fns.values() if f.name.endswith("brc20_controller::" + ln)]
